@@ -220,6 +220,7 @@ def _run_adaptive(case, legs, keep_points, reuse=None, options=True):
         rec = dict(err=A.fl(r[0]), sur=A.fl(r[1]), distinct=nlog(), fdict=int(f.get_f_dict_size()),
                    result=A.vec(op.integral), benefit_max=A.fl(sa.benefit_max), total_error=A.fl(sa.total_error),
                    objs=[[A.fl(o.error), A.fl(o.evaluations), A.fl(o.benefit)] for o in objs])
+        rec['restarts'] = int(getattr(sa, 'counter', 1)) - 1
         if keep_points:
             rec['batch'] = [A.point_key(p) for p in f.log[mark[0]:] if p not in skip]
             mark[0] = len(f.log)
@@ -577,11 +578,23 @@ def check_adaptive(chk, case, r, mjobs):
         jobs['test'] = len(mjobs); mjobs.append((6, [[LG.enc_args(l), LG.enc_stream(t)] for l, t in zip(history, tstreams)]))
     all_evals = [e for leg in legs for e in leg['evals']]
     jobs['points'] = len(mjobs); mjobs.append((5, [e['batch'] for e in all_evals]))
+    if not case.get('evalpts') and sum(len(e['batch']) for e in all_evals) <= 4000:
+        # the same through the cache machine of C12 composed with the driver events (Model/DriverCount.v): evaluations and the restarts
+        # of recalculate_frequently in the order they happened; the model answers with the counts an observer of the integrand reports
+        items, seen = [[0]], 0
+        for e in all_evals:
+            items += [[2, 0]] * max(0, e.get('restarts', 0) - seen)
+            seen = max(seen, e.get('restarts', 0))
+            items.append([1, e['batch']])
+        jobs['cache'] = len(mjobs); mjobs.append((8, items))
     if case['ref'] is not None:
         jobs['err'] = []
         for e in all_evals:
             jobs['err'].append(len(mjobs))
             mjobs.append((2, [case.get('norm', 0), [[sx.rat(x) for x in case['ref']]], [q(x) for x in e['result']]]))
+    if 'storage' in legs[-1] and len(legs[-1]['num_point_array']) == len(all_evals) and all(finite(x) for e in all_evals for x in e['result']):
+        jobs['storage'] = len(mjobs)
+        mjobs.append((9, [[int(p_), [q(x) for x in e['result']]] for p_, e in zip(legs[-1]['num_point_array'], all_evals)]))
     last = all_evals[-1]
     # (the cell scheme does not use RefinementContainer.set_benefit: its benefits are not part of the model)
     if case['strat'] != 'cell' and all(finite(o[0]) and A.unfl(o[1]) == int(A.unfl(o[1])) for o in last['objs']):
@@ -673,6 +686,19 @@ def check_adaptive(chk, case, r, mjobs):
         elif mc != legs[-1]['num_point_array'] and 'point-count' not in okinds:      # (reported by the property predicate otherwise)
             chk.violation('corr:C13/points', 'point-count-differs', sig, fcase,
                           dict(model=str(mc)[:300], impl=str(legs[-1]['num_point_array'])[:300]), failing_input='point-count' in okinds)
+        if 'storage' in jobs:
+            ms = mres[jobs['storage']]
+            got = [[k, [q(x) for x in v]] for k, v in legs[-1]['storage']]
+            if sx.is_err(ms) or isinstance(ms, tuple) or sorted([k, [sx.q(x) for x in v]] for k, v in ms) != got:
+                chk.violation('corr:C13/storage', 'storage-differs', sig, fcase, dict(model=str(ms)[:300], impl=str(got)[:300]),
+                              failing_input='history-arrays' in okinds)
+            chk.count('solutions_storage compared with the model')
+        if 'cache' in jobs:
+            mk = mres[jobs['cache']]
+            if sx.is_err(mk) or isinstance(mk, tuple) or not mk[0] or (mk[1] != legs[-1]['num_point_array'] and 'point-count' not in okinds):
+                chk.violation('corr:C13/points-cache-model', 'point-count-differs', dict(sig, model='cache machine'), fcase,
+                              dict(model=str(mk)[:300], impl=str(legs[-1]['num_point_array'])[:300]), failing_input=False)
+            chk.count('point counts also through the cache machine of C12 (evaluations + restarts)')
         # (3) error estimate
         for k, j in enumerate(jobs.get('err', [])):
             me = mres[j]
@@ -767,7 +793,7 @@ def check_std(chk, case, r, mjobs):
 
 def run(chk):
     gen_info = _c13_gen.regenerate(chk)      # source-derived driver loop: regenerated BEFORE the obligations are rebuilt
-    chk.coq_obligations(extra_props=_c13_gen.EXTRA_PROPS)
+    chk.coq_obligations(extra_props=tuple(_c13_gen.EXTRA_PROPS) + ('C13gendw',))
     gen_problem = _c13_gen.diagnose(chk, gen_info)
     n = chk.n(300, 4000)
     cases = CORPUS + [gen_case(chk.rng, chk.quick) for _ in range(n)]
